@@ -1,0 +1,10 @@
+//go:build !verif
+
+// Package verifhook provides scheduling gates and trace events for the external
+// verification harness. It is only active when built with -tags verif; without
+// the tag every function is an empty, inlinable no-op.
+package verifhook
+
+func At(point string, node uint64) {}
+
+func Ev(name string, node uint64, a, b, c uint64) {}
